@@ -128,7 +128,14 @@ def evaluate(case):
 
             def fake_post(url, json=None, headers=None, verify=True, **kw):
                 recorded.update(url=url, headers=dict(headers or {}), verify=verify, extra=sorted(kw))
+                recorded.setdefault("calls", []).append({"headers": dict(headers or {}), "verify": verify})
                 mode = src.get("answer", "ok")
+                import httpx as _httpx
+                _httpx.URL(url)   # what the real httpx.post does first: an unparsable URL raises httpx.InvalidURL
+                if mode.startswith("transport_error_first_call:"):
+                    if len(recorded["calls"]) == 1:
+                        raise getattr(_httpx, mode.split(":")[1])("simulated transport failure")
+                    mode = "ok"
                 if mode == "ok":
                     res = graphql_sync(schema, json["query"])
                     return FakeResp(200, {"data": res.data})
@@ -170,7 +177,7 @@ def evaluate(case):
                     return FakeResp(200, {"data": {"__schema": None}})
                 raise AssertionError(mode)
             acs.httpx.post = fake_post
-            options["remote_schema_url"] = "http://verif.invalid/graphql"
+            options["remote_schema_url"] = src.get("url", "http://verif.invalid/graphql")
             for k, v in (src.get("env") or {}).items():
                 os.environ[k] = v
             schema_arg = None if src["kind"] == "introspection" else SCHEMA_TEXT
@@ -323,6 +330,24 @@ def build_cases(tier):
     for mode in ("invalid_utf8_body", "latin1_html_body", "invalid_url", "status100", "status301", "status404", "status500", "non_json", "json_array", "no_data", "errors", "errors_with_data", "data_not_object", "data_null",
                  "data_without_schema", "truncated_schema", "schema_null"):
         cases.append(dict(label="introspection_failure", queries=OPSETS["ops1"], opset="ops1", source={"kind": "introspection", "answer": mode}, expect="IntrospectionError", tags={f"failure:{mode}"}))
+    # URLs that httpx itself refuses to parse (the real URL parser runs inside the replaced post): the introspection error, whatever else is configured
+    for ui, bad in enumerate(("http://[::1:8000/graphql/", "https://[host.example]/graphql", "http://exa mple.invalid/graphql", "http://verif.invalid:99999999/graphql", "http://[fe80::1%25eth0/graphql",
+                              "http://verif.invalid:port/graphql")):
+        import httpx as _hx
+        try:
+            _hx.URL(bad)
+            continue   # (httpx parses this one: it would only fail while connecting, which is outside this harness)
+        except _hx.InvalidURL:
+            pass
+        for strat in ("client", "graphqlschema"):
+            cases.append(dict(label="introspection_failure", queries=OPSETS["ops1"], opset="ops1", source={"kind": "introspection", "url": bad}, expect="IntrospectionError", strategy=strat,
+                              options={"remote_schema_headers": {"X-A": "1"}} if ui % 2 else {}, tags={"failure:unparsable_url", f"url:{bad}", f"strategy:{strat}"}))
+    # a transport-level failure of the first request: whatever the tool does next (give up or try again), EVERY request it sends carries the configured headers and TLS flag
+    for exc in ("ConnectTimeout", "ConnectError", "ReadTimeout", "RemoteProtocolError"):
+        for verify in (False, True):
+            cases.append(dict(label="transport_fault", queries=OPSETS["ops1"], opset="ops1", source={"kind": "introspection", "answer": f"transport_error_first_call:{exc}", "env": {"VERIF_TOK": "s3cret"}},
+                              options={"remote_schema_headers": {"Authorization": "$VERIF_TOK", "X-P": "p"}, "remote_schema_verify_ssl": verify}, want_headers={"Authorization": "s3cret", "X-P": "p"}, want_verify=verify,
+                              tags={"transport_fault", f"fault:{exc}", f"verify:{verify}"}))
     # headers / TLS flag
     ENV = {"VERIF_TOK": "s3cret", "VERIF_DOLLAR": "$ecret-9f3a$1", "VERIF_REF": "$VERIF_TOK", "VERIF_SPACES": " padded ", "VERIF-DASH.dotted-name": "dashed-secret", "verif.lower.dots": "dotted-secret",
            "9VERIF_DIGIT_FIRST": "digit-secret", "VERIF_é": "non-ascii-name-secret"}
@@ -396,6 +421,13 @@ def main(tier):
             rep.seen(feats)
         if st != "ok":
             rep.violation("harness_" + st, feats, str(r)[:500], desc)
+            continue
+        if case["label"] == "transport_fault":
+            for ci, call in enumerate((r.get("recorded") or {}).get("calls", [])):
+                if call["headers"] != case["want_headers"]:
+                    rep.violation("headers_sent", feats | {f"request:{ci + 1}"}, f"request {ci + 1} sent headers {call['headers']} expected {case['want_headers']}", desc)
+                if call["verify"] != case["want_verify"]:
+                    rep.violation("verify_flag_sent", feats | {f"request:{ci + 1}"}, f"request {ci + 1} sent verify={call['verify']!r}, configured {case['want_verify']!r}", desc)
             continue
         if case.get("expect"):
             if r["status"] != "raised":
